@@ -757,6 +757,12 @@ class NetworkXGraphStorage:
         def add_graph(self, graph_id: str, graph: nx.Graph) -> None:
             self.lock.acquire()
             try:
+                # refuse an incoming graph without node ids before touching the graph the store
+                # holds under this id
+                for n in graph.nodes():
+                    if not graph.nodes[n].get(ABCPropertyGraph.NODE_ID, None):
+                        raise PropertyGraphImportException(graph_id=graph_id,
+                                                           msg="Some nodes are missing NodeID property, unable to import")
                 # check this graph_id isn't already present
                 existing_graph_nodes = list(nxq.search_nodes(self.graphs, {'eq': [ABCPropertyGraph.GRAPH_ID, graph_id]}))
                 if len(existing_graph_nodes) > 0:
@@ -766,9 +772,6 @@ class NetworkXGraphStorage:
                 temp_graph = nx.convert_node_labels_to_integers(graph, first_label=self.start_id)
                 # set/overwrite GraphID property on all nodes
                 for n in list(temp_graph.nodes()):
-                    if not temp_graph.nodes[n].get(ABCPropertyGraph.NODE_ID, None):
-                        raise PropertyGraphImportException(graph_id=graph_id,
-                                                           msg="Some nodes are missing NodeID property, unable to import")
                     temp_graph.nodes[n][ABCPropertyGraph.GRAPH_ID] = graph_id
                 self.start_id = self.start_id + len(temp_graph.nodes())
                 self.graphs.add_nodes_from(temp_graph.nodes(data=True))
